@@ -16,7 +16,8 @@ EXPLANATION = (
     "these mechanisms, not convergence of several daemons over schedules."
     " (e) The answering service is selected by its resolved (post-rename) name."
     " (g) An interface's DnsRegistry is only created when absent (renames survive add_interface)."
-    " (h) Rewritten probes restart. (i) Every comparison in matches / compare_rdata / rrdata_match pairs like with like (weight with weight).")
+    " (h) Rewritten probes restart. (i) Every comparison in matches / compare_rdata / rrdata_match pairs like with like (weight with weight)."
+    " (j) as C07k. (k) as C04l. (l) as C06q. (m) Probe::expired depends on start_time alone, so moving start_time restarts a probe.")
 UNDECIDED = ["convergence of two or three daemons (global liveness over schedules)", "text of the generated names (unit-tested string functions)",
              "opposite verdicts on both sides as a value-level property of cmp"]
 
@@ -242,6 +243,16 @@ def run(ctx, P):
     r2.compares_like_with_like(ctx, P, "C08i")
     from . import r4
     r4.probes_driven_every_iteration(ctx, P, "C08j")
+    r4.shared_host_rename_outlives_one_service(ctx, P, "C08l")
+    # `after a lost comparison it waits one second and probes again`: tiebreaking() and update_hostname() restart a probe by
+    # moving start_time, which works because Probe::expired depends on start_time alone (shared with C07c)
+    from . import c07
+    ex = P.one("Probe::expired")
+    rs = c07.ret_exprs(P, ex)
+    ok = len(rs) == 1 and c07.norm_cmp(rs[0]) == c07.expect_cmp("Ge", {c07.P2: 1}, {c07.F("start_time"): 1, (): 750})
+    ctx.ob("C08m.F12.expired-formula", ex.name, ok, ex.loc(), "Probe::expired ≡ now >= start_time + 750: moving start_time restarts the probe" if ok else
+           "Probe::expired no longer depends on start_time alone: the restart after a lost tiebreak (start_time := now + 1000) does not make the "
+           "daemon probe again")
     r4.every_packet_dispatched(ctx, P, "C08k")      # conflicts are seen in responses: every response reaches handle_response
     from . import f5
     f5.check_map_key_consistency(ctx, P, "C08f.F5.name-changes-keys", "name_changes", "DnsRegistry")
